@@ -356,6 +356,27 @@ MANDATORY = {
 }
 
 
+def rehash_core_path(lib):
+    """the function that holds the regrouping machinery (partition by devices, hashing tasks, drain loop): `group::rehash`, or the function of the
+    group module it merely delegates to (`rehash` keeps the signature the callers and the tests know)"""
+    b = lib.body('group::rehash')
+    seen = set()
+    while b is not None and b.path not in seen and not b.calls(r'group::partition_by_devices$'):
+        seen.add(b.path)
+        nxt = [c for c in b.calls(r'^group::\w+$') if c.f.get('local')]
+        b = lib.body(nxt[0].path) if len(nxt) == 1 else None
+    return b.path if b is not None else 'group::rehash'
+
+
+def rehash_core(lib):
+    return lib.body(rehash_core_path(lib))
+
+
+def rehash_rx(lib):
+    """a call of rehash, or of the function it delegates to (same argument order: groups, pre-filter, post-filter, ..., hash function last)"""
+    return r'^(%s)$' % '|'.join(sorted({re.escape('group::rehash'), re.escape(rehash_core_path(lib))}))
+
+
 def resolve_body(ctx, fn, rx):
     """`parent::{closure#N}` is looked up by content, not by number: the closure below `parent` that contains a call matching rx
     (closure numbers shift whenever another closure is added to the function)"""
@@ -381,6 +402,10 @@ def run_mandatory(ctx, prop):
     lib = ctx.lib
     n = 0
     for (fn, rx, occ, what, fields, calls) in MANDATORY.get(prop, []):
+        if fn == 'group::rehash':
+            fn = rehash_core_path(lib)
+        if rx == r'group::rehash$':
+            rx = rehash_rx(lib)
         b = resolve_body(ctx, fn, rx)
         if b is None:
             ctx.missing(rule, 'fn ' + fn)
